@@ -85,3 +85,16 @@ Proof.
   - change (lut_step T b X = X) in Fx. rewrite Fx, grid_eqb_refl in G. discriminate.
   - apply (IH T b _ n); [lia|exact Fx].
 Qed.
+
+(* the harness' evaluator of the rule is the rule *)
+Lemma lut_step_fast_eq T b X : lut_step_fast T b X = lut_step T b X.
+Proof. reflexivity. Qed.
+
+Theorem spec_entry_is_rule k T b X :
+  iter k (lut_step_fast T b) X = lut_iter k T b X /\ forall fuel, lut_fix_fast fuel T b X = lut_fix fuel T b X.
+Proof.
+  split.
+  - revert X. induction k as [|k IH]; intros X; [reflexivity|]. cbn [iter]. rewrite lut_step_fast_eq. apply IH.
+  - intros fuel. revert X. induction fuel as [|f IH]; intros X; [reflexivity|].
+    cbn [lut_fix_fast lut_fix]. rewrite lut_step_fast_eq. destruct (grid_eqb (lut_step T b X) X); [reflexivity|apply IH].
+Qed.
